@@ -11,6 +11,9 @@
 (* A range is [ty, s, id]: marker ">" or ">=", start s, id = its position  *)
 (* in the listing (so the harness can give every range its own function). *)
 (* Queries may be repeated on the same object in any order (history).      *)
+(* A range definition is a value: `sorted' belongs to the potential, the   *)
+(* listing is never changed by it (the replay builds further potentials    *)
+(* from the same definition objects before it queries the first one).      *)
 (***************************************************************************)
 EXTENDS Integers, Sequences, FiniteSets, TLC, SequencesExt, FiniteSetsExt, Json, IOUtils
 
